@@ -78,7 +78,8 @@ def _fresh_check(text, timeout_ms, seed=0):
 
 def solve_text(args):
     """Worker: returns dict(status, backend, ms, model, detail)."""
-    text, seed, refute = args
+    text, seed, refute = args[:3]
+    cli = args[3] if len(args) > 3 else True
     try:
         res, ms, mt, reason = _fresh_check(text, Z3_TIMEOUT_MS, seed)
     except z3.Z3Exception as ex:
@@ -87,6 +88,8 @@ def solve_text(args):
         return dict(status="discharged", backend="z3-5.1", ms=ms, model=None, detail="")
     if res == "sat":
         return dict(status="refuted", backend="z3-5.1", ms=ms, model=mt, detail="")
+    if not cli:
+        return dict(status="unknown", backend="z3-5.1", ms=ms, model=None, detail=reason)
     t0 = time.time()
     out = _cli(["/usr/bin/cvc5", "--strings-exp", f"--tlimit={CLI_TIMEOUT_S * 1000}"], "(set-logic ALL)\n" + text, CLI_TIMEOUT_S)
     if out == "unsat":
@@ -110,9 +113,9 @@ def solve_text(args):
     return dict(status="unknown", backend="z3-5.1,cvc5-1.0.3,z3-4.8.12", ms=ms + (time.time() - t0) * 1000, model=None, detail=reason)
 
 
-def discharge_all(obligations, axioms, seed=0, refute=True, jobs=None, pool=None):
+def discharge_all(obligations, axioms, seed=0, refute=True, jobs=None, pool=None, cli=True):
     todo = [o for o in obligations if o.status is None]
-    texts = [(o.smt2(axioms), seed, refute) for o in todo]
+    texts = [(o.smt2(axioms), seed, refute, cli) for o in todo]
     if not todo:
         return obligations
     jobs = jobs or min(16, os.cpu_count() or 4)
